@@ -62,7 +62,8 @@ STUBBED = ["socket/select/time/pinger (simkit)", "peers (scripted)"]
 EXPECT_PROBES = ["side_ctl", "side_sw", "fault_len", "fault_type",
                  "fault_version", "fault_word", "fault_trunc", "fault_flip",
                  "fault_random", "victim_closed", "victim_survived",
-                 "len_zero", "len_short", "len_long"]
+                 "len_zero", "len_short", "len_long", "victim_slow_reader",
+                 "victim_had_unsent_replies", "late_sentinels_sent"]
 
 PORT = G.PORT
 
@@ -108,7 +109,13 @@ def gen_plan(seed, tier):
          "segment": r.chance(0.5), "recv_mode": r.pick(["all", "choose",
                                                          "dribble"]),
          "shuffle_ready": r.chance(0.3),
-         "sentinels": r.randint(0, 3)}
+         "sentinels": r.randint(0, 3),
+         # back-pressure: the peer reads the victim's replies late, so what
+         # the victim queued is still unsent while the rest of the damaged
+         # stream arrives (None = reads at once, else bytes accepted early)
+         "slow_reader": r.pick([None, None, 0, 16, 100]),
+         # the sentinel requests follow in a later write of the peer
+         "late_sentinels": r.chance(0.5)}
   return {"prop": PROP, "seed": seed, "cfg": cfg,
           "steps": [{"m": m.hex()} for m in msgs], "fault": fault}
 
@@ -122,6 +129,10 @@ def minimise_hint(plan):
                                    recv_mode="all", shuffle_ready=False)))
   if plan["cfg"].get("sentinels"):
     out.append(dict(plan, cfg=dict(plan["cfg"], sentinels=0)))
+  if plan["cfg"].get("slow_reader") is not None:
+    out.append(dict(plan, cfg=dict(plan["cfg"], slow_reader=None)))
+  if plan["cfg"].get("late_sentinels"):
+    out.append(dict(plan, cfg=dict(plan["cfg"], late_sentinels=False)))
   return out
 
 
@@ -375,13 +386,35 @@ def _drive_sw(sim, plan, known, hit):
                for i in range(cfg.get("sentinels", 0))]
   stream_all = stream if eof else stream + b"".join(sentinels)
   sib_round()
-  v.send(stream_all)
+  slow = cfg.get("slow_reader")
+  if slow is not None and not eof:
+    v.sock.peer.tx_credit = slow
+    sim.probes["victim_slow_reader"] += 1
+  late = bool(cfg.get("late_sentinels")) and not eof and sentinels
+  v.send(stream if late else stream_all)
   if eof:
     v.sock.close()
   sib_round()
   _drain(sim, "switch read")
+  if late:
+    sim.advance(0.125)
+    _drain(sim, "switch read")
+    try:
+      v.send(b"".join(sentinels))
+      sim.probes["late_sentinels_sent"] += 1
+    except OSError:
+      sim.probes["late_sentinels_refused"] += 1
+    _drain(sim, "switch read")
   sim.advance(0.25)
   _drain(sim, "switch read")
+  if slow is not None and not eof:
+    if v.sock.peer.tx_credit is not None and not v.sock.peer.closed:
+      sim.probes["victim_had_unsent_replies"] += int(
+        v.sock.peer.tx_credit == 0)
+    v.sock.peer.tx_credit = None
+    _drain(sim, "switch read")
+    sim.advance(0.25)
+    _drain(sim, "switch read")
   sib_round()
   _drain(sim, "switch read")
   if sim.task_deaths:
